@@ -121,6 +121,11 @@ impl BoxedUint {
     /// Perform checked division, returning a [`CtOption`] which `is_some`
     /// only if the rhs != 0
     pub fn checked_div(&self, rhs: &Self) -> CtOption<Self> {
+        assert_eq!(
+            self.bits_precision(),
+            rhs.bits_precision(),
+            "the precision of the divisor must match the dividend"
+        );
         let is_nz = rhs.is_nonzero();
         let nz = NonZero(Self::ct_select(
             &Self::one_with_precision(self.bits_precision()),
